@@ -410,6 +410,27 @@ for _k in ["C02", "C11", "C12", "C13", "C14"]:
                            "is made by 2..16 threads released together by a barrier; inputs and expected results are computed beforehand "
                            "with the harness' reference code only, so lazily initialised process-wide state is hit in its first-use window.")
 
+_EXTRA7B = {
+    "C01": " Seventh round: tail-steered signatures (steer.rs): one run of the reference fast-Fourier sampler on e_{n+j} B^-1 gives, in call "
+           "order, the sign of every Gram-Schmidt vector at coefficient j of s2; the generator hook makes every integer-sampler call return "
+           "floor(mu) or floor(mu)+1 accordingly, so that s2_j lands beyond six standard deviations (about -1400/+1480 for Falcon-512, "
+           "-1950/+2070 for Falcon-1024) in a first-attempt signature whose norm is far below the bound; keys from the planted-candidate "
+           "key generator of C04 sign and verify as well.",
+    "C04": " Seventh round: SecretKey::generate() keys; planted key candidates: math::ntru_gen driven by a scripted generator that polls the "
+           "candidate-counter hook and forces the first coefficient of every second candidate f to +-16 (Falcon-1024) / +-32 (Falcon-512), "
+           "just outside the secret-key field; the key finally returned is imported through its byte encoding and gets all oracles.",
+    "C12": " Seventh round: long batch inversions (255 .. 200000 elements, around 2^8, 2^15, 2^16, 2^17), with and without zeros.",
+    "C15": " Seventh round: rare-branch histories: the committed regression seeds (whose key search discards a candidate with F or G "
+           "outside 8 bits) all in one thread, twice over, both parameter-set orders, against the same seeds alone in fresh threads.",
+    "C16": " Seventh round: tail-steered falcon-rust signatures (one s2 coefficient beyond six standard deviations, at most +-2047) must be "
+           "accepted by the reference verifier.",
+    "C17": " Seventh round: the same low-degree basis zero-padded to every ring size, reduced back to back on one thread. The known "
+           "rounding-tie finding is now certified in two ways: the periodic orbit (with the exact rational quotient for n <= 8) or, for any "
+           "n, the exact integer identity (f f* + g g*) M = 2 (F f* + G g*) with every |M_i| <= 1 and some M_i odd at the returned state.",
+}
+for _k, _v in _EXTRA7B.items():
+    CHECKS[_k]["rule"] += _v
+
 NOT_APPLICABLE = {}
 
 ENGINES = [
